@@ -66,7 +66,9 @@ def ansOf (j : Json) : Except String Ans := do
     let res ← (← getArr j "results").mapM resOf
     return .poll sd res
   if hasKey j "status" then return .statuses (← statusListOf (← j.getObjVal? "status"))
-  if hasKey j "d" then return .decision (← decOf (← getStr j "d"))
+  if hasKey j "d" then
+    let m ← (if hasKey j "m" then do pure (some (← pairsOf (← j.getObjVal? "m") valOf)) else pure none)
+    return .decision (← decOf (← getStr j "d")) m
   if hasKey j "ids" then return .ids (← getNatList j "ids")
   if hasKey j "t" then return .clock (← getRat j "t")
   if hasKey j "kind" then
@@ -84,7 +86,7 @@ def expects (pc : Pc) (a : Ans) : Bool :=
   | .ret => !(pc == .clock || pc == .fetch || pc == .decision || pc == .busy || pc == .suggest
               || pc == .removable || pc == .finAll || pc == .done)
   | .poll _ _ => pc == .fetch
-  | .decision _ => pc == .decision
+  | .decision _ _ => pc == .decision
   | .ids _ => pc == .busy || pc == .removable
   | .sugg _ => pc == .suggest
   | .clock _ => pc == .clock
